@@ -57,4 +57,35 @@ CHECKS = {
                 "not yet proved for all inputs; Type() panics on two classes of accepted signatures (known findings)",
         "technique": "Lean 4 proof (mutual structural induction over the signature AST on a deep-embedded PEG interpreter) + grammar regenerated and tied by rfl + differential correspondence",
     },
+    "C02": {
+        "text": "Lean 4 theorems by mutual structural recursion over value trees and typed data: NewValue on the encoding of "
+                "any well-formed value (any nesting, opaque values of any grammar signature, dynamic values nested in "
+                "lists/maps/structs) returns the value, leaves exactly what followed, and re-encoding is identical; uses "
+                "the proven signature parser round trip (C09) for nested signatures; the dispatch table, limits and every "
+                "TypeReader are tied to value.go/reader.go by regenerated tables; differential runs against NewValue and "
+                "MakeReader",
+        "note": "trusts the Lean kernel, extractor, harness encoder (itself compared with the Lean statement of the documented "
+                "layout); 'o'/'X' inside opaque signatures and m-of-m are outside the proven domain",
+        "technique": "Lean 4 proof (mutual structural recursion, fuel-parametric) + regenerated tie lemmas + differential correspondence",
+    },
+    "C03": {
+        "text": "Lean 4 theorems: with the regenerated kind table of qiEncoder.value the reflection encoder equals the "
+                "documented layout D for every signature and typed value; the signature-driven reader returns exactly "
+                "those bytes; the reflection decoder (and the generated Unmarshal semantics) recover the value; a missing "
+                "case is shown to break the equality (the pinned tree's defect); differential runs of Encode / Reader / "
+                "Decode on reflect-built Go values",
+        "note": "trusts the Lean kernel, the extractor's case tables, reflect's behaviour as modelled (kind switch, SetLen, "
+                "MakeSlice limits); Go types are built with the generator's mapping",
+        "technique": "Lean 4 proof (mutual structural recursion over typed values) + regenerated kind tables tied by decide + differential correspondence",
+    },
+    "C08": {
+        "text": "Lean 4: for each decoder family a stability theorem (a successful decode is unchanged by more input and more "
+                "stack) proved for all inputs by induction on the stack depth; together with the round-trip theorems this "
+                "gives, for every valid encoding and every cut position, an error — for the signature-driven reader, "
+                "NewValue, the reflection decoder, the generated readers / capability map, and Message.Read under any "
+                "fragmentation; every cut position of generated encodings is also run against the real decoders",
+        "note": "trusts the Lean kernel, the models of the decoders (tied as under C01-C03); generated readers are modelled "
+                "by the typed decoder with the generated configuration, compared on MetaObject, ObjectReference, ServiceInfo",
+        "technique": "Lean 4 proof (stability by induction on fuel for all inputs + round trip => prefix rejection) + differential correspondence at every cut",
+    },
 }
